@@ -98,6 +98,7 @@ type vbLedger struct {
 	exports   int
 	stopped   bool
 	maxSeen   int
+	zeroOffered bool // some offered request carries no items
 }
 
 func (l *vbLedger) inFlightWith(origin int) int {
@@ -130,7 +131,7 @@ func VerifC03Batcher() {
 		r := rq.(*vbReq)
 		vAssert(!led.stopped, "no-export-begins-after-shutdown-returned")
 		n := r.ItemsCount()
-		vAssert(n > 0, "no-empty-batch-exported")
+		vAssert(n > 0 || led.zeroOffered, "no-empty-batch-exported") // a request without items, exported on its own, is the one batch that may be empty
 		if cfg.MaxSize > 0 {
 			vAssert(int64(n) <= cfg.MaxSize, "exported-batch-within-max-size")
 		}
@@ -177,6 +178,10 @@ func VerifC03Batcher() {
 		n := 3 - 2*(i%2) // simple mode: 3, 1, 3, ...
 		if simple == 0 {
 			n = 1 + vChoice("items", 3)
+		}
+		if vParam("zero") == 1 && vChoice("request-without-items", 2) == 1 {
+			n = 0 // a payload with empty containers: its completion callback still fires exactly once
+			led.zeroOffered = true
 		}
 		led.offered[i] = n
 		qb.Consume(context.Background(), &vbReq{parts: []vbPart{{origin: i, n: n}}}, &vbDone{led: led, origin: i})
